@@ -440,6 +440,25 @@ func dispatch(job Job) *JobRes {
 		}
 		out.Samples = []interface{}{r.Sample}
 		return out
+	case "e2e":
+		mon.Reset(0, false)
+		mode := job.Args["mode"]
+		childLog("e2e seed=%d case=%d mode=%s ops=%d", job.Seed, job.Case, mode, job.N)
+		r := runE2E(job.Seed, job.Case, mode, job.N)
+		out := &JobRes{Evals: r.Ops, Inconclusive: r.Inconclusive, Counters: Counter{"e2e_requests_over_tcp_to_the_real_binary": r.Ops, "e2e_server_instances": r.Instances, "e2e_restarts_compared": r.Restarts,
+			"e2e_sigkills": r.Kills, "e2e_write_verifiers_seen": r.VerfSeen, "e2e_whole_tree_comparisons": r.Walks, "e2e_hostile_requests": r.Hostile}}
+		for _, v := range r.Viol {
+			v.Class = e2eClass(job.Profile, v.Class)
+			out.Viol = append(out.Viol, v)
+		}
+		if r.Ops > 0 {
+			for k := range r.Stats {
+				out.Distinct = append(out.Distinct, "e2e-"+mode+"/"+k)
+			}
+			sort.Strings(out.Distinct)
+		}
+		out.Samples = []interface{}{map[string]interface{}{"e2e_mode": mode, "first_requests": r.Sample}}
+		return out
 	case "limits":
 		mon.Reset(0, false)
 		childLog("limits seed=%d case=%d", job.Seed, job.Case)
@@ -534,12 +553,57 @@ func containsOK(k string) bool {
 	return false
 }
 
+// e2eClass maps the violation classes of the end-to-end engine to the classes
+// of the property a job runs for.
+func e2eClass(prop, class string) string {
+	switch prop {
+	case "C16":
+		if class == "crash" {
+			return "crash"
+		}
+		return "xdr" // a reply of the wrong type/effect through the real registration
+	case "C07":
+		if class == "verf" {
+			return "verf"
+		}
+		return "crash" // acknowledged data missing after the SIGKILL
+	case "C10":
+		if class == "crash" {
+			return "crash"
+		}
+		return "twin"
+	case "C11":
+		if class == "crash" {
+			return "crash"
+		}
+		return "canary"
+	}
+	return class
+}
+
+// withE2E adds end-to-end jobs (real cmd/go-nfsd binary over TCP) of the given modes.
+func withE2E(base func(string, uint64) []Job, prop string, modes []string, nops, thoroughRounds int) func(string, uint64) []Job {
+	return func(tier string, seed uint64) []Job {
+		js := base(tier, seed)
+		rounds := 1
+		if tier == "thorough" {
+			rounds = thoroughRounds
+		}
+		for r := 0; r < rounds; r++ {
+			for i, m := range modes {
+				js = append(js, Job{Engine: "e2e", Profile: prop, Seed: seed, Case: r*len(modes) + i, N: nops, Args: map[string]string{"mode": m}})
+			}
+		}
+		return js
+	}
+}
+
 func propSpecs() map[string]PropSpec {
 	m := map[string]PropSpec{}
 	add := func(s PropSpec) { m[s.ID] = s }
 	add(PropSpec{ID: "C02", Level: "exploration", Classes: []string{"reply", "dump", "content", "handle", "crash"},
 		Rule: "seeded state-aware sequences over all 22 procedures (live/dead/garbage handles, boundary names/offsets, restarts, direct and rpc adapters) compared reply-by-reply and by whole-tree dumps with the reference model; distinct = distinct (procedure, outcome class, argument class) triples observed in sequences that contain a failure, a restart and a file beyond the direct blocks",
-		Plan:  seqPlan("C02", 160, 1600),
+		Plan:  withE2E(seqPlan("C02", 160, 1600), "C02", []string{"kill"}, 90, 6),
 		Assume: []string{"reference model conventions of DESIGN.md §2.2", "open known findings are avoided by the generators (KNOWN_FINDINGS.txt)"}})
 	add(PropSpec{ID: "C04", Level: "exploration", Classes: []string{"fsck", "crash"},
 		Rule: "fsck of the logical disk (repository's own decoders) after every operation of seeded sequences, after concurrent histories and on crash images; distinct = distinct (owned-block-set, tree) hashes of states that have an indirect block or a nested directory",
@@ -568,7 +632,7 @@ func propSpecs() map[string]PropSpec {
 		Plan: seqPlan("C09", 60, 800)})
 	add(PropSpec{ID: "C10", Level: "exploration", Classes: []string{"twin", "cache", "crash"},
 		Rule: "sequences with >100 live objects and multi-block directories; every 20 ops: flush, compare live server with a server recovered from a copy of the image and with itself after a clean restart (handles, attributes, times, listing order, bytes), and cached inodes/name caches/allocators with the logical disk; distinct = distinct state hashes at comparison points",
-		Plan: withConc(seqPlan("C10", 48, 600), "C10", 16, 150, false)})
+		Plan: withE2E(withConc(seqPlan("C10", 48, 600), "C10", 16, 150, false), "C10", []string{"clean"}, 90, 6)})
 	add(PropSpec{ID: "C12", Level: "exploration", Classes: []string{"content", "crash"},
 		Rule: "block-recycling sequences on small disks (pattern f(write id, offset) never zero), shrink to aligned/unaligned sizes and regrow, free-space sweep at the end; every READ and whole-tree dump compared with the reference; distinct = distinct (procedure, outcome, argument class) triples",
 		Plan: withCrash(seqPlan("C12", 90, 900), "C12", 4, 40)})
@@ -602,6 +666,7 @@ func propSpecs() map[string]PropSpec {
 			for i := 0; i < 4; i++ {
 				js = append(js, Job{Engine: "cgate", Profile: "C07", Seed: seed, Case: i})
 			}
+			js = withE2E(func(string, uint64) []Job { return js }, "C07", []string{"sync", "kill"}, 70, 4)(tier, seed)
 			return js
 		}})
 	add(PropSpec{ID: "C03", Level: "exploration", Classes: []string{"lin", "crash", "hang", "deadlock"},
@@ -683,6 +748,7 @@ func propSpecs() map[string]PropSpec {
 			for i := 0; i < n; i++ {
 				js = append(js, Job{Engine: "xdr", Profile: "C16", Seed: seed, Case: i, N: it})
 			}
+			js = withE2E(func(string, uint64) []Job { return js }, "C16", []string{"clean", "stats"}, 70, 4)(tier, seed)
 			return js
 		},
 		Assume: []string{"go-rpcgen's rfc1813 package is an independent rendering of the RFC's XDR description (same generator: hand-derived vectors guard the shared part)"}})
@@ -723,6 +789,7 @@ func propSpecs() map[string]PropSpec {
 			for i := 0; i < n; i++ {
 				js = append(js, Job{Engine: "hostile", Profile: "C11", Seed: seed, Case: i})
 			}
+			js = withE2E(func(string, uint64) []Job { return js }, "C11", []string{"hostile"}, 240, 8)(tier, seed)
 			return js
 		}})
 	add(PropSpec{ID: "C13", Level: "exploration", Classes: []string{"enum", "crash", "hang", "deadlock"},
